@@ -130,15 +130,24 @@ Definition maxcol (l : list apair) (num den : Z) : Z :=
 Definition fix_falls_back (l : list apair) (num den unit : Z) : bool :=
   maxcol l num den * 100000000000 <? (den * (Ga l + Gb l)) ^ 6.
 
-(* correspondence entry point: (cur falls back, fix falls back, guard: cur norm within 10^4 of its threshold) *)
-Definition fallback_report (c : list apair * (Z * Z * Z)) : bool * bool * bool :=
+(* conditioning of the as-found choice: adj(K - lam I) = g v v^T at a simple root, so
+   colnorm 0 / (sum of the four colnorms) = v0^2 = cos^2(theta/2) for the optimal rotation angle theta.
+   Below 1/400 (theta within 0.1 rad of a half turn) the float32 evaluation of column 0 is dominated by
+   rounding.  This predicate is NOT used by any theorem; the correspondence uses it only to attribute a
+   failing superposition to the known defect "only the first column is formed". *)
+Definition sumcol (l : list apair) (num den : Z) : Z :=
+  colnorm 0 l num den + colnorm 1 l num den + colnorm 2 l num den + colnorm 3 l num den.
+Definition cur_illcond (l : list apair) (num den : Z) : bool :=
+  colnorm 0 l num den * 400 <? sumcol l num den.
+
+(* correspondence entry point: 8*[cur falls back] + 4*[fix falls back] + 2*[guard: column-0 norm within
+   10^4 of the absolute threshold] + [cur ill-conditioned] *)
+Definition fallback_report (c : list apair * (Z * Z * Z)) : Z :=
   let '(l, (num, den, unit)) := c in
   let n0 := colnorm 0 l num den * 100000000000 in
   let thr := den ^ 6 * unit ^ 12 in
-  (cur_falls_back l num den unit, fix_falls_back l num den unit,
-   (thr <? n0 * 10000) && (n0 <? thr * 10000)).
-Definition report_eqb (x y : bool * bool * bool) : bool :=
-  let '(a, b, c) := x in let '(a', b', c') := y in Bool.eqb a a' && Bool.eqb b b' && Bool.eqb c c'.
+  (if cur_falls_back l num den unit then 8 else 0) + (if fix_falls_back l num den unit then 4 else 0) +
+  (if (thr <? n0 * 10000) && (n0 <? thr * 10000) then 2 else 0) + (if cur_illcond l num den then 1 else 0).
 
 Definition coeffs_eqb (x y : Z * Z * Z * Z * Z) : bool :=
   let '(a, b, c, d, e) := x in let '(a', b', c', d', e') := y in
